@@ -99,7 +99,7 @@ RunWhys(r) ==
   ELSE LET pl  == PlanOf(r)
            acc == Fold(pl, TRUE, r.events)
        IN IF acc.why # "" THEN {acc.why}
-          ELSE {FinishWhy(pl, acc.st, DocOf(r, pl), r.doc.failed, r.rc)} \ {""}
+          ELSE FinishWhys(pl, acc.st, DocOf(r, pl), r.doc.failed, r.rc)
 
 \* C09 at the CLI: a cyclic configuration must be rejected with a graph error and nothing may run
 RejectWhy(r) ==
